@@ -10,9 +10,9 @@ Hypothesis HP : forall src st i st' o, step m src st i = Ok (st', o) -> P o.
 
 Lemma steps_Forall src : forall n st i outs r, steps m src st i n = (outs, r) -> Forall P outs.
 Proof.
-  induction n as [|n IH]; intros st i outs r H; cbn [steps] in H.
-  - inversion H. constructor.
-  - destruct (step m src st i) as [[st' o]| |] eqn:E; try (inversion H; constructor; fail).
+  induction n as [|n IH]; intros st i outs r H.
+  - cbn in H. inversion H. constructor.
+  - rewrite steps_S in H. destruct (step m src st i) as [[st' o]| |] eqn:E; try (inversion H; constructor; fail).
     destruct (steps m src st' (S i) n) as [os r1] eqn:E1. inversion H; subst.
     constructor; [eapply HP; eauto|eapply IH; eauto].
 Qed.
